@@ -90,7 +90,7 @@ func view(format, obs string) string {
 		switch w {
 		case "C":
 			keep = false
-		case "I", "T", "Z", "P":
+		case "I", "T", "Z", "P", "R":
 			keep = true
 		}
 		if keep {
@@ -301,6 +301,23 @@ func replay(o *hlib.Out, path string) {
 				continue
 			}
 			nstCase(o, ws[1], hlib.UnHex(ws[2]), ws[3], hlib.UnHex(ws[4]), strings.Join(ws[5:], " "))
+		case "mdl":
+			if len(ws) != 3 || ws[1] != "tar" {
+				o.Case(l, "badreplay")
+				continue
+			}
+			mdlTarRun(o, [][]byte{hlib.UnHex(ws[2])}, []string{"mdltar.replay"})
+		case "zlb":
+			if len(ws) != 5 {
+				o.Case(l, "badreplay")
+				continue
+			}
+			v, _ := strconv.Atoi(ws[1])
+			cl, err := strconv.Atoi(ws[3])
+			if err != nil {
+				cl = -1
+			}
+			zlbRun(o, []zlbCase{{v, hlib.UnHex(ws[2]), cl, hlib.UnHex(ws[4]), "zlb.replay"}})
 		case "crc":
 			if len(ws) != 5 {
 				o.Case(l, "badreplay")
@@ -377,6 +394,8 @@ func main() {
 		{"tar", genTar, pick(72, 360), pick(2, 6), pick(16, 128), false},
 		{"zip", genZip, pick(72, 360), pick(2, 6), pick(8, 32), false},
 		{"png", genPng, pick(120, 480), pick(8, 20), pick(24, 128), false},
+		// hand-rolled png: 15 legal colour type / depth pairs x interlace, PLTE / tRNS shapes, IDAT cut into pieces (180 = one period)
+		{"png", genPngRaw, pick(180, 720), pick(3, 10), pick(24, 128), true},
 		{"gif", genGif, pick(40, 240), 0, 0, false},
 		{"wav", genWav, pick(72, 288), 0, 0, false},
 		{"ogg_page", genOgg, pick(44, 220), pick(6, 16), pick(40, 256), false},
@@ -415,6 +434,16 @@ func main() {
 			done++
 		}
 	}
+	// 2b. zlib framing directly (streams inside a zTXt chunk): 840 = one period of texts x variants x levels
+	{
+		var zs []zlbCase
+		for i := 0; i < pick(840, 3360); i++ {
+			zs = append(zs, genZlb(r.Fork(), i))
+		}
+		zlbRun(o, zs)
+	}
+	// 2c. tar headers with base-256 numbers: model comparison only
+	mdlTarCases(o, r)
 	// 3. containers inside containers (reached by fq's probing), one and two levels deep
 	nestedCases(o, r, pool, pick(9, 30))
 	// … and split over the members of a multi-member gzip (field reads that straddle a member boundary)
